@@ -17,6 +17,7 @@ import (
 	"time"
 
 	"github.com/ipfs/go-datastore"
+	logging "github.com/ipfs/go-log/v2"
 	"github.com/ipfs/go-datastore/namespace"
 	dssync "github.com/ipfs/go-datastore/sync"
 	"github.com/ipfs/go-libdht/kad/key/bitstr"
@@ -91,6 +92,8 @@ func (r *spRouter) GetClosestPeers(ctx context.Context, key string) ([]peer.ID, 
 	off := r.offline
 	r.calls++
 	r.mu.Unlock()
+	// (no virtual latency here: the connectivity checker calls the router while holding a sync.Mutex that Close also takes,
+	// and a goroutine parked on a sync.Mutex keeps a synctest bubble's clock from advancing; the sender carries the latency)
 	if off {
 		return nil, errors.New("scripted: no connectivity")
 	}
@@ -108,13 +111,30 @@ type spSender struct {
 	self  peer.ID
 	addr  ma.Multiaddr
 	fails map[int]bool
+	// how long one ADD_PROVIDER takes (virtual time)
+	latency time.Duration
 }
 
 func (s *spSender) SendRequest(context.Context, peer.ID, *pb.Message) (*pb.Message, error) {
 	return nil, nil
 }
 
-func (s *spSender) SendMessage(_ context.Context, p peer.ID, m *pb.Message) error {
+func (s *spSender) SendMessage(ctx context.Context, p peer.ID, m *pb.Message) error {
+	// a message takes a moment and, like a real stream write, fails once its context has ended
+	lat := s.latency
+	if lat <= 0 {
+		lat = 7 * time.Millisecond
+	}
+	tm := time.NewTimer(lat)
+	select {
+	case <-tm.C:
+	case <-ctx.Done():
+		tm.Stop()
+		return ctx.Err()
+	}
+	if ctx.Err() != nil {
+		return ctx.Err()
+	}
 	s.mu.Lock()
 	defer s.mu.Unlock()
 	if s.fails[spPeerNum(p)] {
@@ -163,6 +183,8 @@ type spWorld struct {
 	nkeys  int
 	I      time.Duration
 	delay  time.Duration
+	// how long the harness lets an operation work before it looks at what was sent
+	wait time.Duration
 }
 
 func (w *spWorld) open() {
@@ -193,6 +215,8 @@ func (w *spWorld) open() {
 	if w.a["buffered"] == "1" {
 		w.api = buffered.New(w.prov, namespace.Wrap(w.ds, datastore.NewKey("verif-buffered")), buffered.WithBatchSize(atoiSP(w.a["batch"], 3)))
 	}
+	// the provider measures the network (a few lookups) before it accepts work
+	time.Sleep(2 * time.Second)
 	synctest.Wait()
 }
 
@@ -281,6 +305,8 @@ func runSP(c *vu.Case) {
 	w.r = atoiSP(a["r"], 3)
 	w.router.k = w.r
 	w.nkeys = atoiSP(a["nkeys"], 6)
+	w.sender.latency = time.Duration(atoiSP(a["sendms"], 7)) * time.Millisecond
+	w.wait = time.Duration(atoiSP(a["wait"], 1)) * time.Second
 	w.I = time.Duration(atoiSP(a["interval"], 3600)) * time.Second
 	w.delay = w.I / 12
 	setSwarm := func(n int) {
@@ -315,15 +341,15 @@ func runSP(c *vu.Case) {
 		case "start":
 			_ = w.api.StartProviding(e["force"] == "1", spKeys(e["keys"])...)
 			// the buffered wrapper applies it asynchronously; a provide takes a moment of virtual time
-			time.Sleep(time.Second)
+			time.Sleep(w.wait)
 			synctest.Wait()
 		case "stop":
 			_ = w.api.StopProviding(spKeys(e["keys"])...)
-			time.Sleep(time.Second)
+			time.Sleep(w.wait)
 			synctest.Wait()
 		case "once":
 			_ = w.api.ProvideOnce(spKeys(e["keys"])...)
-			time.Sleep(time.Second)
+			time.Sleep(w.wait)
 			synctest.Wait()
 		case "batch": // several operations handed to the (buffered) provider back to back: ops=s1,x1,S2,o3 …
 			for _, t := range strings.Split(e["ops"], ",") {
@@ -339,7 +365,7 @@ func runSP(c *vu.Case) {
 					_ = w.api.ProvideOnce(spKey(n))
 				}
 			}
-			time.Sleep(time.Second)
+			time.Sleep(w.wait)
 			synctest.Wait()
 		case "swarm":
 			setSwarm(atoiSP(e["n"], 8))
@@ -372,36 +398,115 @@ func runSP(c *vu.Case) {
 }
 
 func TestVerifC17(t *testing.T) {
+	if os.Getenv("VERIF_DEBUG") != "" {
+		_ = logging.SetLogLevel(provider.DefaultLoggerName, "debug")
+	}
 	vu.Run(t, vu.Config{Prop: "C17", QuickN: 60, ThoroughN: 2000,
 		Gen: func(r *vu.RNG, c *vu.Case) bool {
-			if c.Idx%6 == 5 {
+			// Strict scenarios keep two anchor keys (ids 0 and 3: first and last quarter of the keyspace) provided from the
+			// start and never stopped, and a swarm well above the replication factor: the schedule then always holds
+			// several prefixes. (With a single scheduled prefix the provider arms its timer for exactly one interval and, in
+			// virtual time, its handler reads the clock at exactly the deadline; that exact coincidence, which a real clock
+			// does not produce, sends it down the "regions whose time passed while the timer ran" path and shifts slots.)
+			if c.Idx%8 == 5 {
 				// growth scenario: keys in one quarter, the swarm grows several-fold (regions split), later keys arrive
 				// in a quarter that held none, then several cycles
-				q1, q2 := r.Intn(4), 0
-				for q2 = r.Intn(4); q2 == q1; q2 = r.Intn(4) {
-				}
+				q1 := 1 + r.Intn(2)
+				q2 := 3 - q1
 				var a, b []string
-				for i := 0; i < r.Range(3, 5); i++ {
+				na := r.Range(3, 5)
+				for i := 0; i < na; i++ {
 					a = append(a, fmt.Sprint(4*i+q1))
-					b = append(b, fmt.Sprint(4*i+q2))
 				}
-				c.In = append(c.In, fmt.Sprintf("sp nkeys=24 r=%d interval=3600 swarm=%d workers=%s buffered=0 batch=1", []int{3, 4}[r.Intn(2)], []int{8, 10}[r.Intn(2)], []string{"default", "2", "8"}[r.Intn(3)]))
+				// later keys: all over the keyspace, so that some land in regions that held no key when they were explored
+				_ = q2
+				used := map[int]bool{0: true, 3: true}
+				for i := 0; i < na; i++ {
+					used[4*i+q1] = true
+				}
+				for len(b) < 12 {
+					k := r.Intn(48)
+					if !used[k] {
+						used[k] = true
+						b = append(b, fmt.Sprint(k))
+					}
+				}
+				c.In = append(c.In, fmt.Sprintf("sp nkeys=48 r=%d interval=3600 swarm=%d workers=%s buffered=0 batch=1 strict=1", []int{3, 4}[r.Intn(2)], []int{12, 16}[r.Intn(2)], []string{"default", "2", "8"}[r.Intn(3)]))
+				c.In = append(c.In, "start keys=0,3 force=0")
 				c.In = append(c.In, "start keys="+strings.Join(a, ",")+" force=0", "advance cycles=1",
-					fmt.Sprintf("swarm n=%d", []int{24, 32, 48}[r.Intn(3)]), "advance cycles=1", "advance cycles=1",
+					fmt.Sprintf("swarm n=%d", []int{32, 48, 64}[r.Intn(3)]), "advance cycles=1", "advance cycles=1",
 					"start keys="+strings.Join(b, ",")+" force=0", "advance cycles=1", "advance cycles=1", "advance cycles=1")
 				c.Tag("nontrivial")
 				c.Tag("growth")
 				return true
 			}
+			if c.Idx%8 == 6 {
+				// shrink scenario: many keys, the swarm shrinks several-fold so that scheduled regions no longer hold r peers
+				// and merge into their parents, then several cycles
+				rf := []int{3, 4}[r.Intn(2)]
+				nk := r.Range(24, 40)
+				var all []string
+				for i := 0; i < nk; i++ {
+					all = append(all, fmt.Sprint(i))
+				}
+				c.In = append(c.In, fmt.Sprintf("sp nkeys=%d r=%d interval=3600 swarm=%d workers=%s buffered=0 batch=1 strict=1 wait=120", nk, rf, []int{48, 64}[r.Intn(2)], []string{"default", "2", "8"}[r.Intn(3)]))
+				c.In = append(c.In, "start keys="+strings.Join(all, ",")+" force=0", "advance cycles=1", "advance cycles=1",
+					fmt.Sprintf("swarm n=%d", []int{12, 16, 20}[r.Intn(3)]), "advance cycles=1", "advance cycles=1", "advance cycles=1")
+				c.Tag("nontrivial")
+				c.Tag("shrink")
+				return true
+			}
+			if c.Idx%8 == 7 {
+				// slow network: every ADD_PROVIDER takes more than a second and a peer is handed many keys
+				rf := []int{2, 3}[r.Intn(2)]
+				nk := r.Range(12, 20)
+				var all, some []string
+				for i := 0; i < nk; i++ {
+					if i%3 == 2 {
+						some = append(some, fmt.Sprint(i))
+					} else {
+						all = append(all, fmt.Sprint(i))
+					}
+				}
+				c.In = append(c.In, fmt.Sprintf("sp nkeys=%d r=%d interval=3600 swarm=%d workers=%s buffered=0 batch=1 strict=0 sendms=%d wait=300", nk, rf, []int{4, 5, 6}[r.Intn(3)], []string{"default", "2", "8"}[r.Intn(3)], []int{1100, 1500, 2500}[r.Intn(3)]))
+				c.In = append(c.In, "start keys="+strings.Join(all, ",")+" force=0", "once keys="+strings.Join(some, ","), "advance cycles=1", "advance cycles=1")
+				c.Tag("nontrivial")
+				c.Tag("slow-network")
+				return true
+			}
+			strict := c.Idx%8 != 4
 			nkeys := r.Range(3, 8)
-			// swarms stay comfortably larger than the replication factor: with a swarm of r+1 peers the exploration
-			// reprovides skip windows (known finding F20(b), kept as a corpus case)
-			c.In = append(c.In, fmt.Sprintf("sp nkeys=%d r=%d interval=3600 swarm=%d workers=%s buffered=%d batch=%d", nkeys, []int{2, 3, 4}[r.Intn(3)],
-				[]int{10, 12, 16, 24}[r.Intn(4)], []string{"default", "1", "2", "8"}[r.Intn(4)], r.Intn(2), r.Range(1, 4)))
+			sizes := []int{3, 4, 5, 6, 10, 12, 16, 24, 32, 48}
+			rf := []int{2, 3, 4}[r.Intn(3)]
+			if strict {
+				nkeys = r.Range(6, 12)
+				sizes = []int{16, 24, 32, 48, 64}
+				rf = []int{2, 3}[r.Intn(2)]
+			}
+			st := 0
+			if strict {
+				st = 1
+				c.Tag("strict")
+			} else {
+				c.Tag("relaxed")
+			}
+			c.In = append(c.In, fmt.Sprintf("sp nkeys=%d r=%d interval=3600 swarm=%d workers=%s buffered=%d batch=%d strict=%d", nkeys, rf,
+				sizes[r.Intn(len(sizes))], []string{"default", "1", "2", "8"}[r.Intn(4)], r.Intn(2), r.Range(1, 4), st))
+			if strict {
+				c.In = append(c.In, "start keys=0,3 force=0")
+			}
+			id := func() int {
+				for {
+					k := r.Intn(nkeys)
+					if !strict || (k != 0 && k != 3) {
+						return k
+					}
+				}
+			}
 			ids := func() string {
 				var ss []string
 				for i := 0; i < r.Range(1, 3); i++ {
-					ss = append(ss, fmt.Sprint(r.Intn(nkeys)))
+					ss = append(ss, fmt.Sprint(id()))
 				}
 				return strings.Join(ss, ",")
 			}
@@ -417,11 +522,11 @@ func TestVerifC17(t *testing.T) {
 				case x < 9:
 					var ops []string
 					for j := 0; j < r.Range(2, 6); j++ {
-						ops = append(ops, fmt.Sprintf("%c%d", "sSxo"[r.Intn(4)], r.Intn(nkeys)))
+						ops = append(ops, fmt.Sprintf("%c%d", "sSxo"[r.Intn(4)], id()))
 					}
 					c.In = append(c.In, "batch ops="+strings.Join(ops, ","))
 				case x < 11:
-					c.In = append(c.In, fmt.Sprintf("swarm n=%d", []int{10, 12, 16, 24, 32, 48}[r.Intn(6)]))
+					c.In = append(c.In, fmt.Sprintf("swarm n=%d", sizes[r.Intn(len(sizes))]))
 				case x < 12:
 					c.In = append(c.In, "offline")
 					c.In = append(c.In, fmt.Sprintf("advance cycles=%d", r.Range(1, 2)))
